@@ -371,27 +371,39 @@ def r3_links_to_visible(ctx, rep):
 def r4_display_logic(ctx, rep):
     py = ctx.py
     sd = py.func("FortranBase._should_display")
-    t = ast.unparse(sd)
-    ok = "hide_undoc" in t and "doc_list" in t and re.search(r"item\.permission in self\.display", t) is not None
+    ev = astq.trace(sd)
+    item = [a.arg for a in sd.args.args if a.arg != "self"][0]
+    rets = [e for e in ev if e.kind == "return" and e.node.value is not None]
+    # hidden when hide_undoc is on and the item has no documentation; otherwise by membership of its permission
+    hides = any(isinstance(e.node.value, ast.Constant) and e.node.value.value is False
+                and any("hide_undoc" in c for c in e.cond_texts_x(sd)) and any("doc_list" in c for c in e.cond_texts_x(sd)) for e in rets)
+    by_perm = any(isinstance(c, ast.Compare) and isinstance(c.ops[0], ast.In) and ast.unparse(c.left) == f"{item}.permission"
+                  and ast.unparse(c.comparators[0]) == "self.display" for e in rets for x in astq.expand_locals(e.node.value, sd)
+                  for c in ast.walk(x))
+    ok = hides and by_perm
     rep.ob("_should_display consults hide_undoc and display", ok,
            "undocumented items hidden under hide_undoc; otherwise permission in display" if ok else
            "_should_display no longer consults both hide_undoc and display", py.nloc(sd))
     fd = py.func("FortranBase.filter_display")
-    ok = "_should_display" in ast.unparse(fd)
+    ok = any(call_name(c) == "self._should_display" for c in py.walk_calls(fd))
     rep.ob("filter_display uses _should_display", ok, "", py.nloc(fd))
     st = py.func("FortranBase._set_display")
-    t = ast.unparse(st)
-    ok = "self.display = self.parent.display" in t
+    sev = astq.trace(st)
+    assigns = [e for e in sev if e.kind == "assign" and e.target == "self.display" and e.value is not None]
+    ok = any(ast.unparse(e.value) == "self.parent.display" for e in assigns)
     rep.ob("_set_display inherits from parent", ok, "display defaults to the parent's", py.nloc(st))
     # the 'recognised words' test must mention all three permission words
-    words_tests = [n for n in ast.walk(st) if isinstance(n, ast.If) and "not in tmp" in ast.unparse(n.test)
-                   and "'public'" in ast.unparse(n.test)]
-    ok = bool(words_tests) and all(w in ast.unparse(words_tests[0].test) for w in ("'public'", "'private'", "'protected'"))
+    def consts(n):
+        return {c.value for c in ast.walk(n) if isinstance(c, ast.Constant) and isinstance(c.value, str)}
+    words_tests = [n for n in ast.walk(st) if isinstance(n, ast.If) and "public" in consts(n.test)
+                   and any(isinstance(c, ast.Compare) and isinstance(c.ops[0], (ast.NotIn, ast.In)) for c in ast.walk(n.test))]
+    ok = bool(words_tests) and {"public", "private", "protected"} <= consts(words_tests[0].test)
     rep.ob("_set_display recognises public/private/protected", ok,
            "an entity-level display override is honoured when it names any of the three permission words" if ok else
            "the override test no longer mentions all of public/private/protected: e.g. `display: protected` "
            "alone is silently ignored", py.nloc(words_tests[0]) if words_tests else py.nloc(st))
-    ok = "'none' in tmp" in t and "self.display = []" in t
+    ok = any(isinstance(e.value, (ast.List, ast.Tuple)) and not e.value.elts and any("'none' in" in c and not c.startswith("not") for c in e.cond_texts())
+             for e in assigns)
     rep.ob("_set_display handles none", ok, "`display: none` empties the selection", py.nloc(st))
     # proc_internals off: every class whose obj is 'proc' empties its internal collections on that path
     internals = ("functions", "subroutines", "types", "interfaces", "absinterfaces", "variables")
@@ -427,22 +439,34 @@ def r5_graph_links_and_constructor(ctx, rep):
                    f"attribs['URL'], which BaseNode.__init__ sets only for visible entities: a graph rendered as a table "
                    f"links to pages of unselected entities", py.nloc(node))
     tb = py.func("FortranGraph._make_graph_as_table")
-    t = ast.unparse(tb)
-    ok = "attribs['URL']" in t and "except KeyError" in t
-    rep.ob("table-form graphs link through attribs['URL']", ok,
-           "rows without a (visible) URL are rendered as plain text" if ok else
-           "_make_graph_as_table no longer takes the link from attribs['URL']", py.nloc(tb))
-    ok = "self.attribs['URL']" in ast.unparse(base_init) and "getattr(obj, 'visible', True)" in ast.unparse(base_init)
+    url_reads = [n for n in ast.walk(tb) if isinstance(n, ast.Subscript) and isinstance(n.slice, ast.Constant) and n.slice.value == "URL"]
+    guarded = bool(url_reads) and all(
+        any(isinstance(p, ast.Try) and any("KeyError" in astq.handler_types(h) or "BaseException" in astq.handler_types(h) or
+                                           "Exception" in astq.handler_types(h) for h in p.handlers) for p in _up(py, n, tb))
+        or any(isinstance(p, ast.If) and "URL" in ast.unparse(p.test) for p in _up(py, n, tb)) for n in url_reads)
+    rep.ob("table-form graphs link through attribs['URL']", guarded,
+           "rows without a (visible) URL are rendered as plain text" if guarded else
+           "_make_graph_as_table no longer takes the link from attribs['URL'] with a fallback for nodes that have none", py.nloc(tb))
+    sets = [n for n in ast.walk(base_init) if isinstance(n, ast.Assign) and any(
+        isinstance(t, ast.Subscript) and isinstance(t.slice, ast.Constant) and t.slice.value == "URL" for t in n.targets)]
+    ok = bool(sets) and all(any(isinstance(p, ast.If) and "visible" in ast.unparse(p.test) for p in _up(py, n, base_init)) for n in sets)
     rep.ob("BaseNode sets attribs['URL'] only for visible entities", ok, "", py.nloc(base_init))
     # a structure-constructor interface is selected together with its type
     tc = py.func("FortranType.correlate")
-    ok = "self.constructor.permission = self.permission" in ast.unparse(tc)
+    ok = any(isinstance(n, ast.Assign) and any(ast.unparse(t) == "self.constructor.permission" for t in n.targets)
+             and ast.unparse(n.value) == "self.permission" for n in ast.walk(tc))
     rep.ob("constructor interface takes the accessibility of its type before pruning", ok,
            "type.correlate copies the type's permission onto the same-named constructor, prune() runs afterwards" if ok else
            "FortranType.correlate no longer gives the constructor the type's permission: process_attribs hands a "
            "`public/private :: name` statement to the type only, so the same-named generic interface is filtered with "
            "the module default (hidden although selected, or documented although unselected)", py.nloc(tc))
 
+
+def _up(py, node, stop):
+    p = node
+    while p is not stop and p in py.parents:
+        p = py.parents[p]
+        yield p
 
 
 def r6_display_inheritance(ctx, rep):
